@@ -33,6 +33,10 @@ def run(ck):
     # loop fast-forwards through Btdmp::GetMaxSkip / Skip and the timers at once; mailbox and DMA traffic from the handlers
     files += sys_common.record(ck, ck.pick(6, 16), ck.pick(6, 16), tag='aud', mode='audio', seedoff=300)
     files += sys_common.record(ck, ck.pick(4, 12), ck.pick(4, 12), tag='sio', mode='io', seedoff=600)
+    # long horizons: tens to hundreds of thousands of cycles mostly spent idle, slices from 1 to 65541 cycles and in one piece,
+    # timers started near and above 2^16 / 2^17, audio periods in the thousands (the specification takes quiescent stretches in
+    # one step, justified by the Skip lemmas: System!QuietStep / Jump)
+    files += sys_common.record(ck, ck.pick(4, 12), ck.pick(4, 10), tag='long', mode='long', seedoff=900)
     sys_common.validate(ck, files)
     ck.sample_lines(files[0], 1, skip=2)
     ck.assumptions += sys_common.SYS_ASSUMPTIONS + [
